@@ -1,0 +1,130 @@
+// Verification hook (compiled only with `--cfg msi_verif`; off by default).
+//
+// `Package::open` iterates over `HashMap`/`HashSet` values whose iteration
+// order depends on `RandomState`.  On a malformed file that order decides
+// which catalog error (or which panic) is met first, so a simulated run could
+// not be replayed exactly.  Under the guard, `package.rs` uses these wrappers
+// instead: same API surface as used there, but hashed with a seed that the
+// simulator sets per run (thread-local).
+
+use std::borrow::Borrow;
+use std::cell::Cell;
+use std::collections::hash_map;
+use std::collections::hash_set;
+use std::hash::{BuildHasher, Hash, Hasher};
+use std::ops::{Deref, DerefMut};
+
+thread_local! {
+    static HASH_SEED: Cell<u64> = const { Cell::new(0) };
+}
+
+/// Sets the seed used by hash containers created afterwards on this thread.
+pub fn set_hash_seed(seed: u64) {
+    HASH_SEED.with(|cell| cell.set(seed));
+}
+
+#[derive(Clone, Copy)]
+pub struct SeededState(u64);
+
+impl Default for SeededState {
+    fn default() -> SeededState {
+        SeededState(HASH_SEED.with(|cell| cell.get()))
+    }
+}
+
+pub struct SeededHasher(u64);
+
+impl Hasher for SeededHasher {
+    fn write(&mut self, bytes: &[u8]) {
+        for &byte in bytes {
+            self.0 = (self.0 ^ (byte as u64)).wrapping_mul(0x100_0000_01b3);
+        }
+    }
+
+    fn finish(&self) -> u64 {
+        let mut z = self.0;
+        z = (z ^ (z >> 30)).wrapping_mul(0xbf58_476d_1ce4_e5b9);
+        z = (z ^ (z >> 27)).wrapping_mul(0x94d0_49bb_1331_11eb);
+        z ^ (z >> 31)
+    }
+}
+
+impl BuildHasher for SeededState {
+    type Hasher = SeededHasher;
+
+    fn build_hasher(&self) -> SeededHasher {
+        SeededHasher(0xcbf2_9ce4_8422_2325 ^ self.0)
+    }
+}
+
+pub struct HashMap<K, V>(hash_map::HashMap<K, V, SeededState>);
+
+impl<K, V> HashMap<K, V> {
+    pub fn new() -> HashMap<K, V> {
+        HashMap(hash_map::HashMap::default())
+    }
+}
+
+impl<K, V> Deref for HashMap<K, V> {
+    type Target = hash_map::HashMap<K, V, SeededState>;
+
+    fn deref(&self) -> &Self::Target {
+        &self.0
+    }
+}
+
+impl<K, V> DerefMut for HashMap<K, V> {
+    fn deref_mut(&mut self) -> &mut Self::Target {
+        &mut self.0
+    }
+}
+
+impl<K, V> IntoIterator for HashMap<K, V> {
+    type Item = (K, V);
+    type IntoIter = hash_map::IntoIter<K, V>;
+
+    fn into_iter(self) -> Self::IntoIter {
+        self.0.into_iter()
+    }
+}
+
+impl<K: Eq + Hash, V> FromIterator<(K, V)> for HashMap<K, V> {
+    fn from_iter<I: IntoIterator<Item = (K, V)>>(iter: I) -> HashMap<K, V> {
+        let mut map = HashMap::new();
+        for (key, value) in iter {
+            map.0.insert(key, value);
+        }
+        map
+    }
+}
+
+pub struct HashSet<T>(hash_set::HashSet<T, SeededState>);
+
+impl<T> HashSet<T> {
+    pub fn new() -> HashSet<T> {
+        HashSet(hash_set::HashSet::default())
+    }
+}
+
+impl<T: Eq + Hash> HashSet<T> {
+    pub fn contains<Q>(&self, value: &Q) -> bool
+    where
+        T: Borrow<Q>,
+        Q: Hash + Eq + ?Sized,
+    {
+        self.0.contains(value)
+    }
+
+    pub fn insert(&mut self, value: T) -> bool {
+        self.0.insert(value)
+    }
+}
+
+impl<T> IntoIterator for HashSet<T> {
+    type Item = T;
+    type IntoIter = hash_set::IntoIter<T>;
+
+    fn into_iter(self) -> Self::IntoIter {
+        self.0.into_iter()
+    }
+}
